@@ -530,6 +530,15 @@ def c18(res, tier, seed, lib):
         for (n, r, g, b), nm, ln in zip(css, names, lines):
             res.case("css " + nm)
             res.check(ln == "#%02x%02x%02x" % (int(r), int(g), int(b)), "named-colour-has-css-value", "cli:format-hex", nm, "got %s, CSS %s" % (ln, "#%02x%02x%02x" % (int(r), int(g), int(b))))
+    # the named constructor functions (Color::navy() ...) return the CSS value of that name, opaque
+    ans = harness_query(["consts"])[0]
+    cssmap = {n: "%02x%02x%02x" % (int(r), int(g), int(b)) for (n, r, g, b) in css}
+    for item in (ans.split(" ")[1].split(",") if ans.startswith("ok ") else []):
+        name, rest = item.split("=")
+        hx, al = rest.split(":")
+        res.case("Color::%s()" % name)
+        res.check(cssmap.get(name) == hx and al == "1", "constructor-has-css-value", "Color::" + name, "Color::%s()" % name, "returns #%s alpha %s, CSS %s is #%s" % (hx, al, name, cssmap.get(name)))
+    res.check(ans.startswith("ok "), "constructors-listed", "pv-harness consts", "consts", ans[:60])
     near = harness_query(["nearest " + hexs(t) for t in texts])
     inf = infos(texts)
     # run the binary in batches (colours as arguments)
